@@ -46,6 +46,11 @@ def bounds_text(bs):
 
 def make_fn(rng, name, bs, byval, form):
     """One fn declaring bounds `bs` on its deps in the given form; the body does not use them."""
+    # a third of the fns are async (futures are Send by default: that must not add `Send` to the requirements of a by-ref app)
+    return ("async " if rng.random() < 0.33 else "") + make_sync_fn(rng, name, bs, byval, form)
+
+
+def make_sync_fn(rng, name, bs, byval, form):
     body = "{ 0 }"
     dv = "D" if byval else "&D"
     if form == "inline":
